@@ -59,6 +59,12 @@ CLAIMS['C09'] = {
     'design': 'DESIGN.md section 5 C09',
 }
 
+CLAIMS['C13'] = {
+    'text': 'internal::state, change_state, change_action_and_state (constructor from (input, outer states) and default constructor variants): the new state object is constructed exactly once before the rule with the outer states, the rule is called with exactly that object (and not the outer states), success(input, outer states) runs exactly once iff the rule matched (for the action-based variants: and actions are enabled) with the cursor after the match, and the destructor runs exactly once on success, local failure and exception, with no success() on the latter two. change_action, change_control, enable_action, disable_action, internal::action, internal::control, disable, enable call exactly the sub-rule instantiation carrying the new template argument and are otherwise transparent.',
+    'note': 'change_states / change_action_and_states (std::tie/std::get tuples) not under contract; the state object is an opaque stub with a ghost life-cycle automaton.',
+    'design': 'DESIGN.md section 5 C13',
+}
+
 NOT_APPLICABLE = {
     'C14': 'language equality between a recursive grammar and RFC 8259 is not a per-function contract; json.hpp contains no function bodies (DESIGN.md section 5, C14)',
 }
